@@ -95,6 +95,11 @@ type scenario struct {
 	// OnlyExtraDrifts: the general drift kinds are not injected (the managed objects belong to a
 	// paused revision, which legitimately leaves drift on them alone)
 	OnlyExtraDrifts bool
+	// ExpectController: what "the clean-run outcome" is, where the scenario makes it plain:
+	// managed object name -> revision rank that controls it at the end of the undisturbed run
+	// (the newest revision listing it). A differential alone would accept a clean run that is
+	// itself stuck.
+	ExpectController map[string]int
 }
 
 func ready(w *world.World) {
@@ -386,6 +391,15 @@ func unwatched(w *world.World) []string {
 	return out
 }
 
+func sortedKeys(m map[string]int) []string {
+	var out []string
+	for k := range m {
+		out = append(out, k)
+	}
+	sort.Strings(out)
+	return out
+}
+
 func sortedMap(m map[string]string) []string {
 	var out []string
 	for k, v := range m {
@@ -497,7 +511,7 @@ func scenarios() []scenario {
 			w.MustCreate(world.NewObjectSet("r2", osw.PhaseSpecs(osw.OnePhase("a", "b", "c"), 2), nil, "r1"))
 			w.MustCreate(world.NewObjectSet("r3", osw.PhaseSpecs(osw.OnePhase("a", "c", "d"), 3), nil, "r1", "r2"))
 			return w
-		}, DriftTargets: testObjects, LooseHistory: true},
+		}, DriftTargets: testObjects, LooseHistory: true, ExpectController: map[string]int{"a": 3, "b": 2, "c": 3, "d": 3}},
 		{Name: "S12 hand-made chain r1{a,b} <- r2{a,b,c}, collisionProtection None on every object", Init: func() *world.World {
 			w := osw.NewWorld()
 			none := func(ps []world.PhaseSpec) []world.PhaseSpec {
@@ -594,6 +608,21 @@ func run(o checks.Opts) *report.Report {
 	n := 0
 	for _, sc := range scs {
 		ref := execute(sc, nil, false)
+		if ref.Quiescent {
+			for _, name := range sortedKeys(sc.ExpectController) {
+				want := fmt.Sprintf("ObjectSet/<os#%d> ctrl=true", sc.ExpectController[name])
+				found := false
+				for _, l := range strings.Split(ref.Proj, "\n") {
+					if strings.Contains(l, "/"+name+" spec=") && strings.Contains(l, want) {
+						found = true
+					}
+				}
+				if !found {
+					rep.AddViolation(report.Violation{Identity: "clean-run-outcome-wrong " + strings.SplitN(sc.Name, " ", 2)[0], Message: fmt.Sprintf("the undisturbed run of %s became quiescent, but object %s is not controlled by revision #%d (the newest revision listing it):\n%s", sc.Name, name, sc.ExpectController[name], ref.Proj)})
+					break
+				}
+			}
+		}
 		if ref.Quiescent && len(ref.Unwatched) > 0 {
 			rep.AddViolation(report.Violation{Identity: "reference-run-unwatched " + sc.Name, Message: fmt.Sprintf("after the undisturbed run of %s nobody watches %v", sc.Name, ref.Unwatched)})
 		}
